@@ -66,7 +66,9 @@ func genQProgram(r *core.Rand, g qGen, ps int) []QOp {
 		op := QOp{K: k}
 		switch k {
 		case QWrite:
-			switch r.Intn(3) {
+			switch r.Intn(4) {
+			case 3:
+				op.A = -1 - r.Intn(4) // fill the current page up to 0..3 bytes before its end
 			case 0:
 				op.A = table[r.Intn(len(table))]
 			case 1:
@@ -80,7 +82,9 @@ func genQProgram(r *core.Rand, g qGen, ps int) []QOp {
 			case 1:
 				op.B = 1 + r.Intn(16)
 			default:
-				op.B = 1 + r.Intn(op.A)
+				if op.A > 0 {
+					op.B = 1 + r.Intn(op.A)
+				}
 			}
 		case QRRead:
 			op.A = []int{1, 3, 7, 64, ps - 28, ps, 4 * ps, 1 << 20}[r.Intn(8)]
